@@ -143,6 +143,10 @@ def _parse_tlc(r):
     m = re.search(r"Error: Invariant (\S+) is violated", out)
     if m:
         r.violated = m.group(1).rstrip(".")
+    if not m:
+        m = re.search(r"Error: The invariant of (\S+) is equal to FALSE", out)
+        if m:
+            r.violated = m.group(1).rstrip(".")
     m2 = re.search(r"Error: Action property (\S+) is violated", out)
     if m2 and not r.violated:
         r.violated = m2.group(1).rstrip(".")
